@@ -263,9 +263,15 @@ static json_object *gen_bad_patch(json_object *doc)
 	default: break;
 	}
 	json_object *patch = json_object_new_array();
-	int pre = (int)vh_below(2);
-	if (pre)
+	int pre = (int)vh_below(4);
+	if (pre == 1)
 		json_object_array_add(patch, mkop("add", "/zz", NULL, json_object_new_int(1), 1));
+	else if (pre == 2)
+		/* an operation that REPLACES the whole document (the old root is released, *base gets the new one) before the
+		 * operation that is malformed: whatever the outcome, *base must still be something the caller can release */
+		json_object_array_add(patch, mkop(vh_below(2) ? "add" : "replace", "", NULL, gen_val(2), 1));
+	else if (pre == 3 && vh_below(2))
+		json_object_array_add(patch, mkop("remove", "", NULL, NULL, 0));
 	json_object *o = json_object_new_object();
 	/* valid names, unknown names, and near misses of the valid ones: longer, shorter, other case, padded */
 	static const char *opsn[] = {"add", "remove", "replace", "move", "copy", "test", "frob", "", "ADD",
